@@ -10,21 +10,21 @@ CLAIMED = {
              text="Bounded symbolic execution: all six threshold views and check_command are executed with the length(s) as solver variables; within the bound (k<=3 lengths, 2 files) the verdict holds for every integer L>=1, which covers every boundary neighbour; counterexamples are replayed concretely.",
              ref="DESIGN.md 3/C02"),
  "C13": dict(cat="other", technique="CrossHair on the real match/nfa_match/starts_with vs. derivative reference; z3 string/regex query on the DFA built by the real construction",
-             text="Bounded: every pattern tree up to the operator bound x every sequence up to the length bound is decided by the solver (E1 real stepping code, short sequences; E2 real automaton, sequences up to 12 in one query per pattern); construction terminates for every tree given by a symbolic prefix code.",
+             text="Bounded: every pattern tree up to the operator bound x every sequence up to the length bound is decided by the solver (E1 real stepping code, short sequences; E2 real automaton, sequences up to 12 in one query per pattern); construction terminates for every tree given by a symbolic prefix code; matching after an earlier match in the same process gives the same answer.",
              ref="DESIGN.md 3/C13"),
  "C14": dict(cat="other", technique="CrossHair on the real find_all vs. derivative-based greedy reference (all clauses of the statement), replay on the unstubbed function",
-             text="Bounded: all non-nullable pattern trees up to the operator bound x all sequences up to the length bound; the solver ranges over pattern index, length and letters. One known finding (inner attempt shadows outer) is listed and assumed away so the rest of each condition's space is still explored.",
+             text="Bounded: all non-nullable pattern trees up to the operator bound x all sequences up to the length bound; the solver ranges over pattern index, length and letters. One known finding (inner attempt shadows outer) is listed and assumed away so the rest of each condition's space is still explored. Built-in header shapes vs a structural reference, and searches after an earlier search in the same process.",
              ref="DESIGN.md 3/C14"),
  "C15": dict(cat="model_checking", technique="symbolic fixpoint of reachable (DFA state, depth class) configurations + one-step ambiguity query, both by CrossHair on the real Pattern.consume/predicates; replay as source text",
              text="Complete exploration of a finite abstract space with the concrete dimensions (token text, nesting depth) left to the solver: every reachable configuration of every captured automaton x every token kind, with unbounded token value and depth. Not bounded in depth or token text; bounded only by Pygments' type families.",
              ref="DESIGN.md 3/C15"),
- "C19": dict(cat="other", technique="AST->QF_BVFP translation of quality_profile_percentage solved by z3 and cvc5 (exact, bounded totals) + real/int relaxation (unbounded totals) + CrossHair on the verdict branches",
+ "C19": dict(cat="other", technique="AST->QF_BVFP translation of quality_profile_percentage solved by z3 and cvc5 (exact, bounded totals) + real/int relaxation (unbounded totals) + CrossHair on the verdict branches (symbolic figures) and on print_report over real Report objects (with comparison report, repeated requests)",
              text="Each clause of the statement is an unsat query over ALL profiles with total <= 2^B (B=6 quick, 10 thorough) against the bit-precise float semantics of the function's current AST, cross-checked by two solvers and by concrete evaluation on the repository's test inputs; the verdict rule is decided for all integer percentage tuples.",
              ref="DESIGN.md 3/C19"),
  "C18": dict(cat="other", technique="CrossHair on the real delta/table/Markdown/findings code with figures as unbounded solver variables behind opaque format markers; replay with plain ints through a real rich Console",
              text="Bounded in shape (two languages, one figure column symbolic per query, five language-set scenarios, 0..25 findings), unbounded in every figure: shown value == stored value and annotation <=> current != previous with the exact difference, identically in text and Markdown.",
              ref="DESIGN.md 3/C18"),
- "C16": dict(cat="other", technique="CrossHair on the real lex() over a contract-stub lexer with symbolic offsets, lengths, kinds and newline offsets; unit contracts on symbolic strings",
+ "C16": dict(cat="other", technique="CrossHair on the real lex() over a contract-stub lexer with symbolic offsets, lengths, kinds and newline offsets; unit contracts on symbolic strings; lexing the same text repeatedly (purity)",
              text="Bounded in the number of tokens/newlines per query (3/3), unbounded in every offset and length; the oracle is the definition of line/column from newline offsets. What Pygments emits for a text is assumed to follow its documented contract (zero-length tokens included).",
              ref="DESIGN.md 3/C16"),
  "C17": dict(cat="other", technique="CrossHair on the real filter_nocl_comment_tokens with the comment text assembled from solver-chosen parts; skeleton differential through scan_file with the marker at a symbolic line",
@@ -33,8 +33,8 @@ CLAIMED = {
  "C01": dict(cat="other", technique="CrossHair on the real scan_file over layout-symbolic skeletons (real-lexer tokens; line gaps and indentation columns unbounded solver variables) vs. generator ground truth; replay as re-rendered text",
              text="For each generated canonical program the solver decides name/order/span/length for EVERY layout (all blank-line counts at up to 10 boundaries at once, all indentation widths). The program family itself is enumerated up to a size bound (the bound), two classes of genuine defects are listed as known findings.",
              ref="DESIGN.md 3/C01"),
- "C04": dict(cat="other", technique="CrossHair on the real scan_file, canonical vs. transformed token stream (symbolic insertion counts, inserted comment/whitespace tokens) and real-lexer tokens of commented source text",
-             text="Metamorphic, solver-quantified over all insertion counts simultaneously; comment placement patterns are fixed families (everywhere / column-1 / mixed styles) and the source-text variants are lexed by the real lexer so lexer artefacts (zero-length tokens) are in scope.",
+ "C04": dict(cat="other", technique="CrossHair on the real scan_file, canonical vs. transformed token stream (symbolic insertion counts, inserted comment/whitespace tokens), real-lexer tokens of commented source text, and a vendored corpus of 24 real-world files with lexer-validated insertion points",
+             text="Metamorphic, solver-quantified over all insertion counts simultaneously; comment placement patterns are fixed families (everywhere / column-1 / mixed styles) and the source-text variants are lexed by the real lexer so lexer artefacts (zero-length tokens) are in scope; corpus files carry symbolic gaps at <= 10 token-safe boundaries per condition.",
              ref="DESIGN.md 3/C04"),
  "C03": dict(cat="other", technique="CrossHair: token-soup BMC of the real scan_file, solver-chosen single-edit mutants of canonical programs, check_file/_read_file on symbolic bytes, check_command over an in-memory FS; z3 reachability on the real header DFAs",
              text="Compositional and bounded: every token sequence of length N over the language's predicate-induced alphabet with every layout; every single-edit mutant (any position, any replacement class) of several canonical programs; every byte string <= 3; a pool of working directories x ways of naming. Ambiguity errors are excluded by C15 (all depths, all tokens).",
